@@ -2,7 +2,9 @@ import ZV.Model.C17
 /-! line protocol for C17 (see go/props/c17/rig/rig.go):
     `c17 scan <start> <max> <tree> <batch> <nf> <nm> <opts> <kinds> <script> <sched>`
     output `ret=<n>;cnt=<certs>,<precerts>,<unparsable>,<nonfatal>;cb=<idx>:<kind><c|p>,…;req=<s>-<e>,…`
-    (callbacks sorted by index, requests stably sorted by their `end`). -/
+    (callbacks sorted by index, requests stably sorted by their `end`).
+    `c17 cap …` the same with a kind PATTERN repeated over the tree;
+    `c17 seq <n> <10 fields>*n` consecutive scans on one `Scanner` value, outputs joined by `|`. -/
 namespace ZV.C17
 
 def parseKind : Char → Option Kind
@@ -56,45 +58,87 @@ def kindChar : Kind → String
   | .certMatch => "a" | .certOther => "b" | .certNonFatal => "n" | .certGarbage => "u" | .certShell => "v"
   | .preMatch => "p" | .preOther => "q" | .preGarbage => "r" | .preShell => "s"
 
-def handleScan (start mx tree batch nf nm : Nat) (o : Opts) (kinds : List Kind)
-    (tbl : List (Nat × List Tok)) (sched : String) : String :=
+/-- one `Scan` on a `Scanner` value whose counters hold `ob`; returns the output and the counters left behind -/
+def handleScanOn (ob : Obj) (start mx tree batch nf nm : Nat) (o : Opts) (kinds : List Kind)
+    (tbl : List (Nat × List Tok)) (sched : String) : String × Obj :=
   let stop := stopIndex mx tree
-  if start < stop ∧ batch = 0 then "hang"
+  -- prologue of `Scan`
+  let ob0 := resetCounters ob
+  if start < stop ∧ batch = 0 then ("hang", ob0)
   else
-    let st0 := init start stop batch nf nm (lookupScript tbl)
+    let st0 := initOn ob0 start stop batch nf nm (lookupScript tbl)
     let st1 := run st0 (schedOf sched nf nm)
     let st := roundRobin st1 (mu st1 + 1)
-    if !finished st then "stuck"
+    if !finished st then ("stuck", ob0)
     else
       -- cross-check inside the model: per range, the interleaved fetcher sends the requests of `fetchRange`
       let seqReqs := (ranges start stop batch).flatMap (fun r => (fetchRange r.1 r.2 (lookupScript tbl r.2)).2)
       let reqs := sortBy (fun (p : Nat × Nat) => p.2) st.reqlog.reverse
-      if nf > 0 ∧ reqs ≠ seqReqs then "model-inconsistent"
+      if nf > 0 ∧ reqs ≠ seqReqs then ("model-inconsistent", ob0)
       else
-        let effs := (sortBy id st.processed).filterMap (fun i => (kinds[i]?).map (fun k => (i, k, processEntry o k)))
-        if effs.length ≠ st.processed.length then "index-outside-tree"
+        let ka := kinds.toArray
+        let effs := (sortBy id st.processed).filterMap (fun i => (ka[i]?).map (fun k => (i, k, processEntry o k)))
+        if effs.length ≠ st.processed.length then ("index-outside-tree", ob0)
         else
-          let pre := (effs.map (fun e => e.2.2.pre)).sum
-          let unp := (effs.map (fun e => e.2.2.unparsable)).sum
-          let nfe := (effs.map (fun e => e.2.2.nonFatal)).sum
+          let pre := ob0.precerts + (effs.map (fun e => e.2.2.pre)).sum
+          let unp := ob0.unparsable + (effs.map (fun e => e.2.2.unparsable)).sum
+          let nfe := ob0.nonFatal + (effs.map (fun e => e.2.2.nonFatal)).sum
           let cbs := effs.filterMap (fun e =>
             match e.2.2.cb with
             | .none => none
             | .cert => some (toString e.1 ++ ":" ++ kindChar e.2.1 ++ "c")
             | .precert => some (toString e.1 ++ ":" ++ kindChar e.2.1 ++ "p"))
           let rq := reqs.map (fun p => toString p.1 ++ "-" ++ toString p.2)
-          "ret=" ++ toString (scanReturn start st) ++ ";cnt=" ++ toString st.counter ++ "," ++ toString pre ++ ","
+          ("ret=" ++ toString (scanReturn start st) ++ ";cnt=" ++ toString st.counter ++ "," ++ toString pre ++ ","
             ++ toString unp ++ "," ++ toString nfe ++ ";cb=" ++ (if cbs.isEmpty then "-" else ",".intercalate cbs)
-            ++ ";req=" ++ (if rq.isEmpty then "-" else ",".intercalate rq)
+            ++ ";req=" ++ (if rq.isEmpty then "-" else ",".intercalate rq), ⟨st.counter, pre, unp, nfe⟩)
 
-def handle (args : List String) : String :=
-  match args with
-  | ["scan", start, mx, tree, batch, nf, nm, opts, kinds, script, sched] =>
+/-- parse the 10 fields of a scan line and run it on `ob`; `pattern = true`: the kinds field is a pattern
+    repeated over the tree (`cap` lines) -/
+def scanFields (ob : Obj) (pattern : Bool) (f : List String) : Option (String × Obj) :=
+  match f with
+  | [start, mx, tree, batch, nf, nm, opts, kinds, script, sched] =>
     match start.toNat?, mx.toNat?, tree.toNat?, batch.toNat?, nf.toNat?, nm.toNat?, parseOpts opts,
       (if kinds = "-" then some [] else kinds.toList.mapM parseKind), parseScript script with
     | some start, some mx, some tree, some batch, some nf, some nm, some o, some ks, some tbl =>
-      handleScan start mx tree batch nf nm o ks tbl sched
-    | _, _, _, _, _, _, _, _, _ => "bad-op"
+      if pattern then
+        if tree > 4194304 ∨ (ks.isEmpty ∧ tree ≠ 0) then none
+        else
+          let pa := ks.toArray
+          let full := (List.range tree).filterMap (fun i => pa[i % pa.size]?)
+          some (handleScanOn ob start mx tree batch nf nm o full tbl sched)
+      else some (handleScanOn ob start mx tree batch nf nm o ks tbl sched)
+    | _, _, _, _, _, _, _, _, _ => none
+  | _ => none
+
+/-- `n` scans on one value: the counters left by one are what the next one finds -/
+def handleSeq : Nat → Obj → List String → Option (List String)
+  | 0, _, [] => some []
+  | 0, _, _ :: _ => none
+  | n + 1, ob, f =>
+    match scanFields ob false (f.take 10) with
+    | none => none
+    | some (out, ob') => (handleSeq n ob' (f.drop 10)).map (fun rest => out :: rest)
+
+def handle (args : List String) : String :=
+  match args with
+  | "scan" :: f =>
+    match scanFields Obj.new false f with
+    | some (out, _) => out
+    | none => "bad-op"
+  | "cap" :: f =>
+    match scanFields Obj.new true f with
+    | some (out, _) => out
+    | none => "bad-op"
+  | "seq" :: n :: f =>
+    match n.toNat? with
+    | some n =>
+      if n = 0 ∨ n > 16 then "bad-op"
+      else
+        match handleSeq n Obj.new f with
+        | some outs => "|".intercalate outs
+        | none => "bad-op"
+    | none => "bad-op"
   | _ => "bad-op"
 
 end ZV.C17
